@@ -110,3 +110,52 @@ def composed(paths):
             except Exception:  # not composable standalone
                 continue
     return out
+
+
+_VARIANTS = {}
+
+
+def variants(path, per_seed=3):
+    """More valid inputs per class than the tests contain: every accepted seed is parsed, one to three public
+    fields are edited the way a caller would (another enum member, a toggled flag, a nearby integer, longer
+    bytes), the object is composed, and the bytes are kept when the class's own parser accepts them whole.
+    Deterministic (seeded by class path and seed index).  Computed in a forked child: editing objects may touch
+    shared default objects (a known defect of the library), which must not leak into the simulator process."""
+    if path not in _VARIANTS:
+        _VARIANTS[path] = core.call_isolated(_compute_variants, path, per_seed) if objects(path) else []
+    return _VARIANTS[path]
+
+
+def _compute_variants(path, per_seed):
+    import hashlib
+    import random
+    from simverif.props import c13
+    cls = resolve(path)
+    out = []
+    if cls is None:
+        return out
+    for idx, (raw, _) in enumerate(objects(path)):
+        for number in range(per_seed):
+            seed = int.from_bytes(hashlib.sha256(('%s:%d:%d' % (path, idx, number)).encode()).digest()[:8], 'big')
+            rng = random.Random(seed)
+            try:
+                obj = cls.parse_immutable(raw)[0]
+                edited = False
+                for _ in range(rng.randrange(1, 4)):
+                    edited = bool(c13.edit_field(obj, rng)) or edited
+                if not edited:
+                    continue
+                data = bytes(obj.compose())
+                if data == raw or len(data) > 70000:
+                    continue
+                cls.parse_exact_size(data)
+            except Exception:  # the edited object is not composable / not accepted back  # pylint: disable=broad-except
+                continue
+            if data not in out:
+                out.append(data)
+    return out
+
+
+def accepted_plus(path):
+    """Committed accepted seeds plus the derived variants."""
+    return accepted(path) + variants(path)
